@@ -122,3 +122,133 @@ pub fn parse_args() -> Args {
     }
     a
 }
+
+/// Invariants of a store at rest, read through the verification hooks.  They are the standing
+/// hypotheses of the Lean models (index agreement, clock floor, tier copies, exact accounting,
+/// ownership partition, `MarkOK`); every engine evaluates them wherever a store is quiescent.
+pub mod inv {
+    use feoxdb::FeoxStore;
+
+    pub const BS: usize = 4096;
+
+    pub struct Finding {
+        /// properties the violated invariant belongs to
+        pub props: &'static [&'static str],
+        pub what: String,
+    }
+
+    fn header(version: u32, key_len: usize) -> usize {
+        if version <= 1 { 22 + key_len } else { 30 + key_len }
+    }
+
+    /// no call in flight (any configuration)
+    pub fn quiescent(store: &FeoxStore) -> Vec<Finding> {
+        let mut out = vec![];
+        let snap = store.verif_snapshot();
+        let hash: Vec<&Vec<u8>> = snap.iter().map(|r| &r.key).collect();
+        let tree = store.verif_tree_keys();
+        if hash.len() != tree.len() || hash.iter().zip(tree.iter()).any(|(a, b)| *a != b) {
+            let only_tree: Vec<String> = tree.iter().filter(|k| !hash.contains(k)).map(|k| super::hex(k)).collect();
+            let only_hash: Vec<String> = hash.iter().filter(|k| !tree.contains(k)).map(|k| super::hex(k)).collect();
+            out.push(Finding { props: &["C14", "C01"], what: format!("the ordered index and the hash index hold different keys: only ordered {:?}, only hash {:?}", only_tree, only_hash) });
+        }
+        if store.len() != snap.len() {
+            out.push(Finding { props: &["C13", "C01"], what: format!("len() = {} but the index holds {} keys", store.len(), snap.len()) });
+        }
+        let rs = feoxdb::verif::pure::record_struct_size();
+        let foot: usize = snap.iter().map(|r| rs + r.key.len() + r.value_len).sum();
+        if store.memory_usage() != foot {
+            out.push(Finding { props: &["C13"], what: format!("memory_usage() = {} but the live records add up to {} ({} keys)", store.memory_usage(), foot, snap.len()) });
+        }
+        for r in &snap {
+            let shard = store.verif_clock_shard(&r.key);
+            let clock = store.verif_clock_value(shard);
+            if clock < r.timestamp {
+                out.push(Finding { props: &["C12"], what: format!("key {} carries timestamp {} but its clock shard stands at {}", super::hex(&r.key), r.timestamp, clock) });
+                break;
+            }
+        }
+        for r in &snap {
+            if let Some(t) = store.verif_tiers(&r.key) {
+                let copies: Vec<(&str, &Vec<u8>)> = [("resident", &t.resident), ("device", &t.on_disk), ("cache", &t.cached)].iter().filter_map(|(n, c)| c.as_ref().map(|c| (*n, c))).collect();
+                if copies.is_empty() && !store.verif_is_memory_only() {
+                    out.push(Finding { props: &["C01", "C08"], what: format!("key {} (timestamp {}) has neither resident bytes nor a readable device copy", super::hex(&r.key), r.timestamp) });
+                    break;
+                }
+                if let Some(w) = copies.windows(2).find(|w| w[0].1 != w[1].1) {
+                    out.push(Finding { props: &["C01", "C16"], what: format!("key {}: the {} copy and the {} copy of one generation differ", super::hex(&r.key), w[0].0, w[1].0) });
+                    break;
+                }
+            }
+        }
+        out
+    }
+
+    /// a persistent store right after an acknowledged flush (nothing queued, no retirement pending)
+    pub fn after_flush(store: &FeoxStore, path: &str) -> Vec<Finding> {
+        let mut out = vec![];
+        if store.verif_is_memory_only() { return out; }
+        let blocks = (store.verif_device_size() / BS as u64) as usize;
+        let version = store.verif_format_version();
+        let snap = store.verif_snapshot();
+        let mut owner: Vec<Option<usize>> = vec![None; blocks];
+        let mut live_blocks = 0u64;
+        for (i, r) in snap.iter().enumerate() {
+            if r.sector == 0 {
+                out.push(Finding { props: &["C05", "C02"], what: format!("after an acknowledged flush key {} has no extent", super::hex(&r.key)) });
+                return out;
+            }
+            let n = (header(version, r.key.len()) + r.value_len).div_ceil(BS).max(1);
+            live_blocks += n as u64;
+            for b in r.sector as usize..r.sector as usize + n {
+                if b >= blocks || b < 16 {
+                    out.push(Finding { props: &["C05"], what: format!("the extent of key {} leaves the data area (block {})", super::hex(&r.key), b) });
+                    return out;
+                }
+                if owner[b].is_some() {
+                    out.push(Finding { props: &["C05"], what: format!("block {} belongs to two live extents", b) });
+                    return out;
+                }
+                owner[b] = Some(i);
+            }
+        }
+        let mut free = vec![false; blocks];
+        for (s, n) in store.verif_free_runs() {
+            for b in s as usize..(s + n) as usize {
+                if b >= blocks || b < 16 || owner[b].is_some() || free[b] {
+                    out.push(Finding { props: &["C05", "C06"], what: format!("free run {}+{} overlaps a live extent / another run or leaves the data area at block {}", s, n, b) });
+                    return out;
+                }
+                free[b] = true;
+            }
+        }
+        // (on a legacy-format device the extent of a record follows that format's layout: C10 as well)
+        let own: &'static [&'static str] = if version < 3 { &["C05", "C10"] } else { &["C05"] };
+        if let Some(b) = (16..blocks).find(|b| owner[*b].is_none() && !free[*b]) {
+            let n = (16..blocks).filter(|b| owner[*b].is_none() && !free[*b]).count();
+            out.push(Finding { props: own, what: format!("{} data blocks are neither live nor free (leaked), first {} (format v{})", n, b, version) });
+        }
+        if store.verif_disk_usage() != live_blocks * BS as u64 {
+            out.push(Finding { props: own, what: format!("disk usage counter {} != live total {} (format v{})", store.verif_disk_usage(), live_blocks * BS as u64, version) });
+        }
+        // MarkOK: no valid retirement marker in a free block claims a block of a published record
+        if version >= 3 {
+            if let Ok(img) = std::fs::read(path) {
+                'blocks: for b in 16..blocks {
+                    let o = b * BS;
+                    if o + 19 > img.len() || owner[b].is_some() || &img[o..o + 8] != b"\0DELETED" { continue; }
+                    let token = u16::from_le_bytes([img[o + 16], img[o + 17]]);
+                    if token != feoxdb::verif::pure::retirement_marker_token(b as u64, &img[o..o + 19]) { continue; }
+                    let rem = u64::from_le_bytes(img[o + 8..o + 16].try_into().unwrap()) as usize;
+                    for i in 1..rem.min(blocks - b) {
+                        if let Some(k) = owner[b + i] {
+                            out.push(Finding { props: &["C05", "C03"], what: format!("the retirement marker in free block {} claims {} blocks, but block {} holds the live record of key {}", b, rem, b + i, super::hex(&snap[k].key)) });
+                            break 'blocks;
+                        }
+                    }
+                }
+            }
+        }
+        out
+    }
+}
